@@ -1,11 +1,68 @@
 ENGINES = [
-    {"name": "xplore", "path": "/verif/harness/vx + /verif/inject/*", "serves_properties": ["C20"],
-     "kind_free_text": "bounded-exhaustive enumeration of explicitly stated finite input-shape spaces / operation histories, executed on the real code built from /repo's working tree"},
+    {"name": "xplore", "path": "/verif/run + /verif/harness/vx + /verif/inject/*",
+     "serves_properties": ["C01", "C02", "C03", "C05", "C06", "C07", "C10", "C11", "C12", "C13", "C14", "C15", "C16", "C18", "C19", "C20"],
+     "kind_free_text": "bounded-exhaustive enumeration of explicitly stated finite input-shape spaces, deviation-bounded environment scripts (nonce/candidate streams, reader answers) and two-call histories, executed on the real code built from /repo's working tree; shapes that cannot be reached by choosing values are solved for (nonces for a wanted GCM counter, (k,e,d) for wanted signature shapes)"},
+    {"name": "statebfs", "path": "/verif/inject/sm3/C04_pub_test.go", "serves_properties": ["C04"],
+     "kind_free_text": "explicit-state breadth-first search over Write/Sum/Reset histories of the live SM3 object; dedup key = full concrete memory of the object; successor = replay of the shortest op path on a fresh object + 1 op"},
+    {"name": "refs", "path": "/verif/harness/refs", "serves_properties": ["C01", "C02", "C03", "C04", "C05", "C06", "C07", "C10", "C11", "C12", "C13", "C14", "C15", "C16", "C18", "C19"],
+     "kind_free_text": "independent reference models (sm3ref, sm4ref with algebraic S-box, gcmref bit-serial SP 800-38D with field inversion, sm2ref textbook GM/T 0003.2 in math/big), self-validated against the standards' printed vectors at the start of every check"},
+    {"name": "guard", "path": "/verif/harness/guard", "serves_properties": ["C11"],
+     "kind_free_text": "mmap arenas with PROT_NONE pages before and after; SetPanicOnFault turns a stray access by Go or assembly into a recoverable panic with Addr()"},
 ]
 NOT_APPLICABLE_REASONS = {}
 TEXT = {}
-TEXT["C20"] = {
-    "technique": "exhaustive enumeration of finite input spaces (complete for l=1 and n=17; shape-complete pattern sweep for 256-bit inputs)",
-    "level_text": "Every case of a stated finite space is executed on the real helpers and compared with an independent oracle: the complete 2^16 input space for 1-byte comparison and for 16-bit recoding at every window width, and for 256-bit inputs every 8-bit (quick) / 16-bit (thorough) pattern at every bit offset on all-zero and all-one backgrounds, which covers every byte-boundary carry and window alignment the code distinguishes.",
-    "level_note": "Trusted: Go toolchain, bytes.Compare, math/big (only to cross-check the limb accumulator). Not covered: 256-bit inputs outside the pattern alphabets.",
-}
+
+def T(pid, technique, level_text, level_note, engine="xplore"):
+    TEXT[pid] = {"technique": technique, "level_text": level_text, "level_note": level_note, "engine": engine}
+
+T("C01", "exhaustive enumeration of signature-shape classes with solved inputs (leading-zero-byte counts of r, s, t x fills x key encodings x three entry points)",
+  "Every class of signature the code distinguishes (number of leading zero bytes of r, s and (r+s) mod n, short key encodings, all three signing entry points) is produced deterministically by solving for (k, e) or d, then signed and verified on the real code. The space of shape classes is finite and enumerated completely; it is the input-shape dimension where this property's failures live (the verifier indexes a fixed 256-bit string).",
+  "Trusted: Go toolchain, math/big, sm2ref for deriving public keys. Not covered: value-dependent failures inside a shape class (those are C14/C15/C16's alphabets).")
+T("C02", "deviation-bounded enumeration of nonce streams (environment answers) against a reference model",
+  "All nonce streams with up to D rejected candidates (k=0, k=n, k=n+1, k=2^256-1, and candidates made to hit r=0, r+k=n, s=0 by solving e or d) followed by an acceptable one are enumerated for D=0,1,2 (3 in thorough), crossed with key and digest classes; each is executed and compared byte for byte, including bytes consumed, with the textbook reference signer.",
+  "Trusted: sm2ref.Sign (validated on the GM/T 0003.5 example). Bound: at most D rejected candidates per call.")
+T("C03", "exhaustive single-fault mutation of valid signatures plus solved side-condition violators, against a reference verifier",
+  "For a set of base signatures every single-bit flip of each of the five arguments, every wrong length, every out-of-range r/s value, and tuples solved to satisfy the verification equation while violating exactly one side condition (r+s=n, r>=n, s>=n, result at infinity, off-curve/non-canonical keys) are verified on the real code and compared with the seven-condition reference procedure.",
+  "Trusted: sm2ref.Verify. Not covered: multi-fault mutations; keys/digests outside the base set.")
+T("C04", "explicit-state model checking of Write/Sum/Reset histories on the implementation itself",
+  "Breadth-first search over all operation sequences (Write of every length that keeps the stream <= L, three Sum prefix shapes, Reset) from New(), deduplicated on the full concrete memory of the hash object, so all ways of splitting any message of length <= L into writes are covered by induction over states rather than sampled. Every transition executes the real code; every state is digest-checked against the reference and SumSM3.",
+  "Trusted: sm3ref (validated on GB/T 32905 vectors). Bound: streams <= L bytes (200 quick, 520 thorough); positional-content family is merged on (length, digest), constant-content families on full memory.", engine="statebfs")
+T("C05", "exhaustive enumeration over key/block alphabets x every implementation path and lane position",
+  "Each key x block pair from alphabets built from the structure of the cipher (zero, ones, standard sample, all one-hot, single-byte sweeps, seeded) goes through the portable one- and two-block code, every vector kernel width with the block visiting every lane, both directions, aliased and non-aliased, and both key schedules; all compared with a table-free reference.",
+  "Trusted: sm4ref validated on GB/T 32907 vectors incl. the 10^6-fold iteration. arm64 kernels are not executable here.")
+T("C06", "exhaustive enumeration of every length class with solved counter-wrap nonces, against a bit-serial SP 800-38D reference",
+  "Every plaintext length and every aad length 0..1100 (so every combination of the 256/128/64/32/16-byte kernels, the tail, and 1-way/4-way GHASH), nonce lengths 1..300, tag sizes 12..16, and nonces solved by field inversion so that the 32-bit counter wraps inside each kernel width, on the fused assembly path and on the arm64 kernel-plus-Go-glue path compiled over the amd64 kernels.",
+  "Trusted: gcmref+sm4ref (mode logic validated against the standard library's AES-GCM). Bound: lengths <= 1100; the arm64 assembly itself is not executed.")
+T("C07", "exhaustive single-fault mutation of sealed messages, verdict decided by a reference GCM",
+  "For valid messages over all length classes: every single-bit flip of ciphertext, tag, nonce and aad, every truncation, extension, foreign tag size and every string shorter than the tag is opened on the real code; a reference GCM decides authenticity; rejection must be clean (nil plaintext, no panic, nothing left in dst).",
+  "Trusted: standard library generic GCM over sm4ref (cross-checked against gcmref per base message). Multi-fault forgeries are out of scope (that is the cryptographic strength of GHASH, not an implementation property).")
+T("C10", "exhaustive enumeration of destination shapes and two-call histories",
+  "All (len(dst), spare capacity) shapes incl. nil, empty and the in-place idiom, for Seal, Open and Sum over all message length classes, each call repeated on the same buffers, with every input snapshotted and compared; plus every SM2 entry point called twice on snapshotted arguments.",
+  "Trusted: reference outputs. Backing-array reuse is not required, only the append contract.")
+T("C11", "exhaustive placement of every argument at both edges of mapped memory for every length",
+  "Every slice or pointer argument of the public Block/AEAD methods and of every amd64 assembly routine is placed so that it ends exactly at, or starts exactly after, an inaccessible page, for every length 0..1100 (nonces 1..300, GHASH block counts 0..20); a stray read or write by Go or assembly faults and is caught; short-buffer misuse must end in a Go panic and leave canaries intact.",
+  "Trusted: kernel page protection and runtime fault-to-panic conversion. An out-of-range access that lands in the same page on the non-guarded side is only visible through the complementary placement, which is why both edges and all lengths are enumerated.")
+T("C12", "deviation-bounded enumeration of candidate streams plus boundary-value enumeration",
+  "GenerateKey on every stream of <= 3 rejected candidates followed by a valid one; TestPrivateKey/DerivePublic on every boundary value and on n-1 perturbed at every byte position; CheckOnCurve on valid points with every single-bit flip of either coordinate, non-canonical and wrong-length inputs; all against the reference.",
+  "Trusted: sm2ref. Bound: <= 3 rejected candidates; 20-36 base points.")
+T("C13", "exhaustive enumeration of id and message lengths across SM3 padding boundaries",
+  "ZA for every id length 0..8200 (every residue mod 64 many times, the 8191/8192 boundary) and the wrappers for every message length 0..200 x id lengths straddling padding boundaries, compared with the reference digest-level computation; message and id binding checked.",
+  "Trusted: sm3ref/sm2ref. Contents are seeded, lengths are exhaustive in the stated ranges.")
+T("C14", "exhaustive enumeration of every window value at every window position (all four comb layouts), nibble positions and signed digits",
+  "Base multiplication on every value of every fixed-window position of the four comb layouts on zero and seeded backgrounds, variable-point multiplication on every nibble value at every position for scalar lengths 0..33, and the double-scalar routine on every signed 4-NAF digit at every position with points in special relation to G, against an independent math/big reference.",
+  "Trusted: sm2ref (Jacobian validated against affine arithmetic and elliptic.CurveParams). Scalars outside the alphabets are not covered.")
+T("C15", "exhaustive enumeration of point pairs x projective representatives x aliasing patterns; single-fault mutation of encodings",
+  "Add/Double/Negate/Select/Set on all pairs of an 11-point alphabet (incl. equal, inverse, infinity) in four projective scalings each and all receiver/operand aliasing patterns, with the curve equation checked on every result; decoding of every length, every leading byte, every single-bit flip of valid encodings.",
+  "Trusted: affine group law in math/big. In-package seam for raw projective coordinates; a public-API twin remains if the seam stops compiling.")
+T("C16", "exhaustive enumeration over carry-critical limb alphabets; straight-line execution of the addition chains over the exponent algebra",
+  "All residues built from a 14-22 value limb alphabet (unary operations) and all pairs over a 5-7 value sub-alphabet (binary operations) for both moduli against math/big; decoding strictness at every byte position; and the two generated inversion programs of the current tree executed with Square: e<-2e, Mul: e<-e1+e2, whose single path must yield exactly m-2.",
+  "Trusted: math/big. Textual substitution of three identifiers in the generated chain files (reported as a lost seam if the files change shape).")
+T("C18", "complete enumeration of a finite space (every table entry recomputed from its derivation)",
+  "Every entry of the four SM2 comb tables, the S-box, the four T-tables, CK, FK, SM3 T_j, the curve parameter block, and the DATA blocks of the assembly files (FK/CK copies, arm64 S-box, shuffles, counter increments, nibble reversal, GCM polynomial) is recomputed; the GFNI affine matrices are validated by emulating GF2P8AFFINEQB/INVQB over all 256 inputs.",
+  "Trusted: reference models; Intel SDM semantics of the two GFNI instructions as emulated.")
+T("C19", "fault enumeration: every position and kind of the first randomness failure, deviation-bounded short-read scripts",
+  "A scripted io.Reader answers each Read call from a small menu (full, short, zero, k bytes+error, k bytes+EOF, full+error); all scripts with the first failure at draw 0..3 (after 0..3 rejected candidates) x byte offset {0,1,16,31,32} x failure kind, and all scripts with <= 2 non-failing deviations, for all four entry points.",
+  "Trusted: io.ReadFull contract as reference semantics, sm2ref.")
+T("C20", "exhaustive enumeration of finite input spaces (complete for l=1 and n=17; shape-complete pattern sweep for 256-bit inputs)",
+  "The complete 2^16 input space for 1-byte comparison and for 16-bit recoding at every window width; for 256-bit inputs every 8-bit (quick) / 16-bit (thorough) pattern at every bit offset on all-zero and all-one backgrounds, which covers every byte-boundary carry and window alignment the code distinguishes.",
+  "Trusted: bytes.Compare, math/big (cross-check of the limb accumulator). 256-bit inputs outside the pattern alphabets are not covered.")
